@@ -387,8 +387,30 @@ inline Value handleBisect(const Value &v) {
   return r;
 }
 
+// ExpandImpl final state: the real expandCellsToDensity on a circuit with the same cells, available area and row width
+inline Value handleExpandImpl(const Value &v) {
+  std::vector<int> w = v["w"].ints(), h = v["h"].ints();
+  int n = (int)w.size(), avail = (int)v["avail"].asInt(), roww = (int)v["roww"].asInt();
+  Circuit c(n);
+  c.setCellWidth(w);
+  c.setCellHeight(h);
+  std::vector<Row> rows;
+  int y = 0;
+  for (int left = avail; left > 0; left -= roww, ++y) rows.emplace_back(0, std::min(roww, left), y, y + 1, CellOrientation::N);
+  c.setRows(rows);
+  c.expandCellsToDensity(v["p64"].asInt() / 64.0, 0.0, v["cap64"].asInt() / 64.0);
+  bool same = true;
+  for (int i = 0; i < n; ++i)
+    if (c.cellWidth()[i] != v["res"][i].asInt()) same = false;
+  Value r = Value::object();
+  r.set("ok", true).set("impl", same);
+  if (!same) r.set("got", Value::from(c.cellWidth()));
+  return r;
+}
+
 inline Value handle(const Value &v) {
   const std::string &k = v["k"].asStr();
+  if (k == "expandimpl") return handleExpandImpl(v);
   if (k == "bisect") return handleBisect(v);
   if (k == "t1dimpl") return handleT1dImpl(v);
   if (k == "pin") return handlePin(v);
